@@ -209,9 +209,13 @@ theorem C13_export_skips_unused (C : Codec K) (n : Net K) : exportNet C (canon n
   exportNet_canon C n
 
 /-! ## a printer with finitely many digits (`Codec.PrinterOn D`: `rd (fmt x) = some (q x)`, `fmt (q x) = fmt x`; the
-    sexagesimal text likewise with its own quantisation `qd`, its two laws required on the domain `D` only)
+    sexagesimal text likewise with its own quantisation `qd`, its two laws required on the domain `D` only; round 8: the
+    elements of `<cov-mat>` likewise with THEIR printer `fmtCov` and quantisation `qc` — `updated_xml_covmat` prints them
+    with `scientific`, `precision(16)`, not through `to_xmlstr`)
 
-  `R x := q x = x`, `Rd x := D x ∧ qd x = x` are the numbers the two printers give back exactly; every number read from
+  `R x := q x = x`, `Rc x := qc x = x`, `Rd x := D x ∧ qd x = x` are the numbers the three printers give back exactly
+  (`Net.WFc C R Rc Rd`; `Net.WF C R Rd` is `Rc := Codec.CovRep`, i.e. `rd (fmtCov x) = some x`, the same thing for a printer:
+  `Codec.PrinterOn.wf_iff`); every number read from
   a printed file is one, so the theorems above apply verbatim to the second, third, … export.  For the first export of
   arbitrary numbers the angular values printed as sexagesimal text must lie in the domain of that printer
   (`Net.AngIn D`; gama normalises observed angles to [0, 400) gon; a document in gons prints none: `Net.angIn_gons`).
@@ -222,24 +226,25 @@ theorem C13_export_skips_unused (C : Codec K) (n : Net K) : exportNet C (canon n
 /-- the exported document does not change when every number of the network is replaced by its printed-and-read value
     (in degrees: the value of an angular observation by `qd`, its standard deviation and covariance rows quantised in
     seconds) -/
-theorem C13_export_quantised {C : Codec K} {D : K → Prop} {q qd : K → K} (P : C.PrinterOn D q qd) (n : Net K)
-    (hD : n.AngIn D) : exportNet C (quantNet C q qd n) = exportNet C n :=
+theorem C13_export_quantised {C : Codec K} {D : K → Prop} {q qc qd : K → K} (P : C.PrinterOn D q qc qd) (n : Net K)
+    (hD : n.AngIn D) : exportNet C (quantNet C q qc qd n) = exportNet C n :=
   exportNet_quant P n hD
 
-/-- reading the export gives the network with every number quantised (`quantNet`: `x ↦ q x`; the latitude through its
+/-- reading the export gives the network with every number quantised (`quantNet`: `x ↦ q x`, covariance elements
+    `x ↦ qc x`; the latitude through its
     unit conversion; in degrees `val ↦ qd val`, `stdev ↦ fromSec (q (toSec stdev))`), provided the angular values printed
     as sexagesimal text are in the domain `D` of that printer and the quantised values still pass the parser's guards
-    (`Net.WF` of the quantised network, decidable).  Gons and degrees. -/
-theorem C13_roundtrip_network_printer {C : Codec K} {D : K → Prop} {q qd : K → K} (P : C.PrinterOn D q qd) (impl : Kind → K)
+    (`Net.WFc` of the quantised network, decidable, in arithmetic).  Gons and degrees. -/
+theorem C13_roundtrip_network_printer {C : Codec K} {D : K → Prop} {q qc qd : K → K} (P : C.PrinterOn D q qc qd) (impl : Kind → K)
     (par0 : Params K) (n : Net K) (hD : n.AngIn D)
-    (hw : (quantNet C q qd n).WF C (fun x => q x = x) (fun x => D x ∧ qd x = x)) :
-    parseNet C impl par0 (exportNet C n) = .ok (canon (quantNet C q qd n)) :=
+    (hw : (quantNet C q qc qd n).WFc C (fun x => q x = x) (fun x => qc x = x) (fun x => D x ∧ qd x = x)) :
+    parseNet C impl par0 (exportNet C n) = .ok (canon (quantNet C q qc qd n)) :=
   parse_export_net_printer P impl par0 n hD hw
 
 /-- … and exporting that again gives the same document: the export is a fixed point from the first round on -/
-theorem C13_fixed_point_network_printer {C : Codec K} {D : K → Prop} {q qd : K → K} (P : C.PrinterOn D q qd) (impl : Kind → K)
+theorem C13_fixed_point_network_printer {C : Codec K} {D : K → Prop} {q qc qd : K → K} (P : C.PrinterOn D q qc qd) (impl : Kind → K)
     (par0 : Params K) (n : Net K) (hD : n.AngIn D)
-    (hw : (quantNet C q qd n).WF C (fun x => q x = x) (fun x => D x ∧ qd x = x)) :
+    (hw : (quantNet C q qc qd n).WFc C (fun x => q x = x) (fun x => qc x = x) (fun x => D x ∧ qd x = x)) :
     (parseNet C impl par0 (exportNet C n)).map (exportNet C) = .ok (exportNet C n) := by
   rw [parse_export_net_printer P impl par0 n hD hw]
   simp [Except.map, exportNet_canon, exportNet_quant P n hD]
@@ -448,7 +453,8 @@ example : unaryCodec.LawfulOn (fun _ => True) :=
    fun x => by
      intro h
      have := congrArg String.length h
-     simp [unaryCodec] at this⟩
+     simp [unaryCodec] at this,
+   fun _ h => h⟩
 
 -- a constrained-xy / fixed-z point in an inconsistent system: y mirrored back, `fix="z"`, `adj="XY"`
 example : exportPoint strCodec true ⟨"A", some ("1", "2"), some "3", .constr, .fixed⟩ =
@@ -470,15 +476,15 @@ example : (canon sampleNet).points.map (·.id) = ["A", "B"] := by decide
 example : decCodec.Printer decQ decQd := decCodec_printer
 example : decCodec.rd (decCodec.fmt 1001) = some 1010 := by rw [decCodec_printer.rd_fmt]; rfl
 example : decCodec.rdDeg (decCodec.fmtDeg 123456) = some 123500 := by rw [decCodec_printer.rdDeg_fmtDeg _ trivial]; rfl
-example : (quantNet decCodec decQ decQd lossyNet).WF decCodec (fun x => decQ x = x) (fun x => True ∧ decQd x = x) := lossyNet_WF
+example : (quantNet decCodec decQ decQ decQd lossyNet).WFc decCodec (fun x => decQ x = x) (fun x => decQ x = x) (fun x => True ∧ decQd x = x) := lossyNet_WF
 example : lossyNet.head.ys = true := by decide
 -- output in degrees: an `<obs>` cluster with a direction, a distance, an angle and a full covariance matrix; the
 -- quantised network meets the (decidable) side condition, and the theorem applies to it
 example : lossyNetDeg.par.gons = false := rfl
-example : (quantNet decCodec decQ decQd lossyNetDeg).WF decCodec (fun x => decQ x = x) (fun x => True ∧ decQd x = x) := lossyNetDeg_WF
+example : (quantNet decCodec decQ decQ decQd lossyNetDeg).WFc decCodec (fun x => decQ x = x) (fun x => decQ x = x) (fun x => True ∧ decQd x = x) := lossyNetDeg_WF
 example : lossyNetDeg.AngIn (fun _ => True) := by decide
 example : parseNet decCodec (fun _ => 7) lossyNet.par (exportNet decCodec lossyNetDeg)
-    = .ok (canon (quantNet decCodec decQ decQd lossyNetDeg)) :=
+    = .ok (canon (quantNet decCodec decQ decQ decQd lossyNetDeg)) :=
   C13_roundtrip_network_printer decCodec_printer _ _ _ (by decide) lossyNetDeg_WF
 -- the hypothesis of the exact theorem is decidable: evaluated on the sample network; the parser theorems apply to what
 -- the model reads from the sample network's own export
